@@ -251,26 +251,38 @@ func (r *RibTable) CleanUpFace(faceId uint64) {
 
 // CleanUpFace removes the specified face from this entry and all entries below it.
 func (r *RibEntry) CleanUpFace(faceId uint64) {
-	// Recursively clean children
-	for child := range r.children {
-		child.CleanUpFace(faceId)
-	}
+	// First drop the routes everywhere, then recompute the FIB entries from the
+	// top down: a concurrent lookup then finds, for every name, either the old or
+	// the new nexthops, never a mix of cleaned-up and stale entries.
+	r.removeFaceRoutes(faceId)
+	r.updateNexthopsEnc()
+	r.pruneSubtree()
+}
 
-	if r.Name == nil {
-		return
-	}
-
-	// Remove every route using the face (there may be one per origin)
-	for i := len(r.routes) - 1; i >= 0; i-- {
-		if route := r.routes[i]; route.FaceID == faceId {
-			if i < len(r.routes)-1 {
-				copy(r.routes[i:], r.routes[i+1:])
+// removeFaceRoutes removes every route using the face from this entry and all entries below it.
+func (r *RibEntry) removeFaceRoutes(faceId uint64) {
+	if r.Name != nil {
+		// There may be one route per origin
+		for i := len(r.routes) - 1; i >= 0; i-- {
+			if route := r.routes[i]; route.FaceID == faceId {
+				if i < len(r.routes)-1 {
+					copy(r.routes[i:], r.routes[i+1:])
+				}
+				r.routes = r.routes[:len(r.routes)-1]
+				readvertiseWithdraw(r.Name, route)
 			}
-			r.routes = r.routes[:len(r.routes)-1]
-			readvertiseWithdraw(r.Name, route)
 		}
 	}
-	r.updateNexthopsEnc()
+	for child := range r.children {
+		child.removeFaceRoutes(faceId)
+	}
+}
+
+// pruneSubtree prunes the entries at and below this entry that carry no information.
+func (r *RibEntry) pruneSubtree() {
+	for child := range r.children {
+		child.pruneSubtree()
+	}
 	r.pruneIfEmpty()
 }
 
